@@ -64,6 +64,8 @@ def run(ctx):
     C.rule('C04-PAIR-index', 'every insertion/removal of element items and every write of SHORT-NAME text is paired (dominance / all-Ok-paths) with add_/fix_/remove_identifiable or a bulk edit of the path index; reviewed exemptions for detached trees')
     C.rule('C04-MUST-unique', 'a name is installed only after get_element_by_path(new path) was consulted, and its Some edge leaves through an Err exit or a renaming loop')
     C.rule('C04-DEV-prefix', 'every str::strip_prefix result used to re-key paths is tested is_empty() || starts_with(\'/\') (the /pkg1 vs /pkg10 guard), or its strings are paths collected from the moved subtree itself')
+    C.rule('C04-MUST-identifiable', 'every site that adds an entry to the path index registers an element for which is_identifiable() holds: the insertion is only reachable over the true edge of an is_identifiable() test, '
+           'or the key was produced by Element::path() (which fails for anything else), or the element was just given a SHORT-NAME as first item; the parser registers only a SHORT-NAME that is the first sub element')
     C.rule('C04-SIB-model', 'in the cross-model move the uniqueness check and the registration use the destination model, the de-registration the source model')
     C.assumptions = ['identity of objects approximated by co-occurrence in one function plus dominance', 'does not decide index = tree after arbitrary histories, nor duplicates inside one loaded document']
 
@@ -154,6 +156,7 @@ def run(ctx):
                         '%s in the cross-model move operates on the wrong model (parameter _%s instead of _%d)' % (nm, p, roles[nm]), mf.where(pos),
                         sample={'fn': 'move_element_full', 'call': nm, 'model': 'destination' if roles[nm] == dst[0] else 'source'})
         C.floor('C04-SIB-model', n, 5)
+    must_identifiable(C, P)
     return C.finish('Pairing of structural edits with path-index maintenance, decided on the MIR of every body (dominance / all-Ok-paths queries over '
                     'type-resolved events), uniqueness check before every name installation, segment-safe prefix re-keying. '
                     'Does not decide the equality index = tree after arbitrary histories.')
@@ -326,3 +329,70 @@ def prefix_rules(C, P):
                     'a path prefix is stripped and the remainder used for re-keying without the segment-boundary test (renaming /pkg1 would also re-key /pkg10)', b.where(pos),
                     sample={'fn': b.short, 'idiom': 'strip_prefix(old) -> is_empty() || starts_with(\'/\') before re-key'})
     C.floor('C04-DEV-prefix', n, 6)
+
+
+def must_identifiable(C, P):
+    from pairing import guarded_by_true, calls
+    from flow import const_val, deep_sources
+    R = 'C04-MUST-identifiable'
+    n = 0
+    for b in P.bodies.values():
+        if b.crate != 'autosar_data' or b.short in ('AutosarModel::add_identifiable', 'AutosarModel::fix_identifiables'):
+            continue
+        for op in E.ident_ops(b):
+            if not (op['op'] in ('add',) or (op['how'] == 'direct' and op['op'] == 'insert')):
+                continue
+            n += 1
+            site = op['pos']
+            ev = None
+            # (A) guarded by is_identifiable()
+            for cp in calls(b, r'(impl Element|ElementRaw)>::is_identifiable$'):
+                if guarded_by_true(b, site, cp):
+                    ev = 'guard:is_identifiable'
+            # (B) the element was just given a SHORT-NAME as its first item: create_sub_element(.., ShortName, ..) on a fresh, empty element dominates the site
+            if not ev:
+                from c13 import value_sources
+                for cp in calls(b, r'ElementRaw>::create_sub_element$'):
+                    t = b.blocks[cp[0]]['term']
+                    if any(('agg', 'ElementName::ShortName') in value_sources(b, a) for a in t['args'] if is_local_op(a)) and b.pos_dominates(cp, site):
+                        ev = 'short-name-created'
+            # (C) the registered elements come out of a collection built by a closure that keeps only elements for which Element::path() succeeds
+            if not ev and op['how'].startswith('wrapper'):
+                n_, c_, f_ = deep_sources(b, op['term']['args'][2])
+                if any(re.search(r'Iterator>?::next$', c) for c in c_):
+                    for cb in P.closures_of(b):
+                        if calls(cb, r'impl Element>::path$') and calls(cb, r'Result::<T, E>::ok$'):
+                            ev = 'collected-through-Element::path'
+            # (D) bulk insert of what the parser collected
+            if not ev and b.short == 'AutosarModel::load_buffer_internal':
+                n_, c_, f_ = deep_sources(b, op['term']['args'][2], depth=24)
+                if 'ArxmlParser.identifiables' in f_:
+                    ev = 'parser-collected'
+            C.check(bool(ev), R, '%s|index-insert#%d' % (b.short, sum(1 for o in E.ident_ops(b) if o['pos'] < site and o['op'] in ('add', 'insert'))),
+                    'an entry is added to the path index for an element that is not known to be identifiable at this point (no is_identifiable() guard, key not from Element::path(), no SHORT-NAME just created): lookup would return an element whose own path() fails or differs',
+                    b.where(site), sample={'fn': b.short, 'evidence': ev})
+    C.floor(R + '.sites', n, 4)
+    # the parser: the push onto parser.identifiables is guarded by name == SHORT-NAME and by "no earlier sub element"
+    pe = P.get('ArxmlParser::parse_element')
+    pushes = []
+    for pos, t in pe.iter_calls():
+        if call_matches(t, r'Vec::<T, A>::push$'):
+            rp = E.recv_place(pe, t)
+            if rp is not None and has_field(rp, 'ArxmlParser.identifiables'):
+                pushes.append(pos)
+    if len(pushes) != 1:
+        C.anchor_missing(R, 'push onto ArxmlParser.identifiables')
+        return
+    site = pushes[0]
+    g_name = g_first = False
+    for cp in calls(pe, r'ElementName as .*PartialEq>::eq$'):
+        if guarded_by_true(pe, site, cp):
+            g_name = True
+    for pos, t in pe.iter_calls():
+        if call_matches(t, r'SmallVec::<A>::is_empty$|::first$|::len$'):
+            n_, c_, f_ = deep_sources(pe, t['args'][0])
+            if 'ElementRaw.content' in f_ and 'element' in n_ | {pe.names.get(l) for l in ()} and call_matches(t, r'is_empty$') and guarded_by_true(pe, site, pos):
+                g_first = True
+    C.check(g_name, R, 'parser|registers-only-on-SHORT-NAME', 'the parser registers an element in the path index without testing that the sub element is a SHORT-NAME', pe.where(site))
+    C.check(g_first, R, 'parser|SHORT-NAME-is-first-sub-element', 'the parser registers an element whose SHORT-NAME is not its first sub element: is_identifiable()/path()/item_name() only look at the first sub element, so lookup returns an element that is not identifiable',
+            pe.where(site), sample={'fn': 'parse_element', 'guards': ['name == SHORT-NAME', 'element.content.is_empty()']})
